@@ -81,7 +81,7 @@ def run_unit(kind, key, tier, known, seed=0, inner=1):
             res = verify_lemma(reg.lemmas[key], reg)
         else:
             res = verify_function(reg.get(key), reg)
-        timeout = 10 if tier == 'quick' else 60
+        timeout = 20 if tier == 'quick' else 90
         dump = os.path.join(OUT, 'smt', _safe(res.short))
         _CTX.update(res=res, known=known, reg=reg, tier=tier, dump=dump,
                     timeout=timeout)
